@@ -67,13 +67,15 @@ inductive Kind where
 
 /-- What the child process does.
     basic/hook children (`/bin/sh -c` scripts): `ok` exit 0, `fail` exit 3, `sig` dies of a signal on its
-    own, `fork` has a helper process in its group and exits 0, `nobin` cannot be started.
+    own, `fork` has a helper process in its group and exits 0, `nobin` cannot be started, `ign` = `ok` that
+    ignores SIGTERM and SIGINT (nothing in the executor's handling of a basic or hook task sends either: the
+    model treats it as `ok`; the correspondence run holds the real executor to that).
     controllable children: `noport` never opens its control port, `nobin` cannot be started,
     `occ*` serve OCC and walk to DONE when asked: `occ` exits at DONE, `occstay` stays and dies of
     SIGTERM, `occign` ignores SIGTERM/SIGINT, `occfork` has a helper in its group, `occfail` = `occ`
     that exits 3 when it ends on its own. -/
 inductive Beh where
-  | ok | fail | sig | fork | nobin | noport | occ | occstay | occign | occfork | occfail
+  | ok | fail | sig | fork | nobin | noport | occ | occstay | occign | occfork | occfail | ign
   deriving DecidableEq, Repr, Inhabited
 
 inductive Op where
@@ -124,6 +126,8 @@ inductive Site where
   | ctlLaunch                -- controllabletask.go Launch goroutine: taskCmd.Process.Pid after a failed Start
   | ensureBasicTaskKilled    -- basictaskcommon.go: taskCmd.ProcessState.Exited() with ProcessState == nil
   | ctlKill                  -- controllabletask.go Kill: t.rpc.GetState with t.rpc == nil
+  | startBasicTask           -- basictaskcommon.go startBasicTask: t.taskCmd used (pipes, Start, the reaper goroutine's
+                             -- copy) after a concurrent Kill set it to nil — only in an overlap of the two requests
   deriving DecidableEq, Repr, Inhabited
 
 inductive Res where
@@ -166,7 +170,7 @@ structure St where
   sigs    : List Sig
   /-- a KILL request has been carried out -/
   killed  : Bool
-  deriving Repr, Inhabited
+  deriving DecidableEq, Repr, Inhabited
 
 /-! ### behaviours -/
 
@@ -476,7 +480,7 @@ def Kind.parse? : String → Option Kind
 def Beh.parse? : String → Option Beh
   | "ok" => some .ok | "fail" => some .fail | "sig" => some .sig | "fork" => some .fork | "nobin" => some .nobin
   | "noport" => some .noport | "occ" => some .occ | "occstay" => some .occstay | "occign" => some .occign
-  | "occfork" => some .occfork | "occfail" => some .occfail | _ => none
+  | "occfork" => some .occfork | "occfail" => some .occfail | "ign" => some .ign | _ => none
 
 def Op.parse? : String → Option Op
   | "tick" => some .tick | "start" => some .start | "stop" => some .stop | "conf" => some .conf
@@ -484,7 +488,7 @@ def Op.parse? : String → Option Op
 
 /-- the (kind, behaviour) pairs the harness can build -/
 def validCase : Kind → Beh → Bool
-  | .basic, b | .hook, b => b = .ok || b = .fail || b = .sig || b = .fork || b = .nobin
+  | .basic, b | .hook, b => b = .ok || b = .fail || b = .sig || b = .fork || b = .nobin || b = .ign
   | .ctl, b => b = .noport || b = .nobin || b.ready
   | .nodata, b => b = .ok
 
@@ -519,12 +523,14 @@ def Site.name : Site → String
   | .ctlLaunch => "ControllableTask.Launch"
   | .ensureBasicTaskKilled => "basicTaskBase.ensureBasicTaskKilled"
   | .ctlKill => "ControllableTask.Kill"
+  | .startBasicTask => "basicTaskBase.startBasicTask"
 
 def Site.parse? : String → Option Site
   | "handleLaunchEvent" => some .handleLaunchEvent
   | "ControllableTask.Launch" => some .ctlLaunch
   | "basicTaskBase.ensureBasicTaskKilled" => some .ensureBasicTaskKilled
   | "ControllableTask.Kill" => some .ctlKill
+  | "basicTaskBase.startBasicTask" => some .startBasicTask
   | _ => none
 
 def Sig.name : Sig → String
